@@ -401,7 +401,7 @@ def set_item_defined(keys, op):
 
 
 # ----------------------------------------------------------------- comparison
-def compare(las, model):
+def compare(las, model, ci=None):
     """All views against the model; returns a list of (what, expected, observed)."""
     bad = []
     cur = list(las.curves)
@@ -454,7 +454,8 @@ def compare(las, model):
                 got = repr(e)
             if got != model[i]["arr"]:
                 bad.append(("las[%d]" % i, model[i]["arr"], got))
-        ci = bool(las.curves.mnemonic_transforms)
+        if ci is None:
+            ci = bool(las.curves.mnemonic_transforms)
         for k in keys:
             # first item whose session mnemonic equals k under the section's comparison
             pos = None
@@ -570,12 +571,15 @@ def step_check(root, history, target, op):
                         "%s: %s" % (type(exc).__name__, str(exc)[:200])))
         return vio, None
     models[target] = newm
-    bad = compare(las, newm)
+    # whether names are compared case-insensitively follows from how the object was made (read with case normalisation
+    # or not), never from the object's own flag
+    ci_made = (root == "read") or (root == "pair" and target == 1)
+    bad = compare(las, newm, ci_made)
     for what, exp, got in bad[:3]:
         vio.append(viol("model-mismatch", what, history, target, op, root, exp, got))
     if not bad and op[0] in ("append", "insert"):
         # after an insertion the items sharing the inserted name are numbered :1..:n in order (a single one keeps the bare name)
-        ci = bool(las.curves.mnemonic_transforms)
+        ci = ci_made
         name = op[1] if op[0] == "append" else op[2]
         u = "UNKNOWN" if not name.strip() else name
         grp = [p for p, r in enumerate(newm) if ((("UNKNOWN" if not r["name"].strip() else r["name"]).upper() == u.upper()) if ci
@@ -679,7 +683,14 @@ def run_unit(unit):
     for d in range(2, depth + 1):
         nxt = []
         for hist in frontier:
-            objs, _ = build(root, hist)
+            try:
+                objs, _ = build(root, hist)
+            except Exception as e:
+                # a history that was executed and validated a moment ago does not replay: something outside the objects
+                # (module-level state) has changed the behaviour of the same calls
+                res["violations"].append(viol("replay-diverged", "history", hist[:-1], hist[-1][0], hist[-1][1], root,
+                                              "a validated history replays identically", repr(e)))
+                continue
             for target in targets_for(root):
                 for op in alphabet(len(objs[target].curves), names_for(root)):
                     h2 = expand(hist, target, op)
